@@ -165,6 +165,19 @@ def _binop_tags(eng, opn, l, lt, r, rt, st, line):
                 for _ in range(yv):
                     res = res * x
                 yield st, SV(V.mk_int(res))
+            elif getattr(eng, "float_overflow", False):
+                # x ** y with a symbolic exponent: an (opaque) integer for y >= 0, a float for y < 0 (ZeroDivisionError for 0 ** negative)
+                st_f = st.copy()
+                st.assume(y >= 0)
+                if eng.feasible(st):
+                    yield st, SV(V.mk_int(opq("int_pow", z3.IntSort(), z3.IntSort(), z3.IntSort())(x, y)))
+                st_f.assume(y < 0)
+                if eng.feasible(st_f):
+                    for st1, z in eng.branch(x == 0, st_f):
+                        if z:
+                            yield st1, Raise(Exc(ZeroDivisionError, ("0.0 cannot be raised to a negative power",)))
+                        else:
+                            yield st1, SV(V.Val.flt(opq("int_pow_neg", z3.IntSort(), z3.IntSort(), z3.IntSort())(x, y)))
             else:
                 raise Unsupported("integer power with symbolic exponent")
         elif opn in ("lshift", "rshift", "or", "and", "xor"):
@@ -221,6 +234,19 @@ def _binop_tags(eng, opn, l, lt, r, rt, st, line):
         f = opq(f"{opn}_{lt}_{rt}", V.Val, V.Val, z3.IntSort())
         con = {"cplx": V.Val.cplx, "flt": V.Val.flt, "dec": V.Val.dec}[res_tag]
         res = SV(con(f(a, b)))
+        if getattr(eng, "float_overflow", False) and res_tag in ("flt", "cplx") and ("int" in kinds or "frac" in kinds):
+            # mixed arithmetic converts the exact operand to float first: OverflowError when it is out of the range of a double
+            # (the largest integer that still rounds to a finite double is 2**1024 - 2**970 - 1)
+            ex_t, ex_tag = (a, lt) if lt in ("int", "frac") else (b, rt)
+            q = V.real_of(ex_t) if ex_tag == "frac" else z3.ToReal(V.int_of(ex_t))
+            bound = z3.RealVal(2**1024 - 2**970)
+            st_o = st.copy()
+            st_o.assume(z3.Or(q >= bound, q <= -bound))
+            if eng.feasible(st_o):
+                yield st_o, Raise(Exc(OverflowError, ("int too large to convert to float",)))
+            st.assume(z3.And(q < bound, q > -bound))
+            if not eng.feasible(st):
+                return
         if opn in ("truediv", "floordiv", "mod"):
             # raises iff the divisor is zero (float: ZeroDivisionError; Decimal: DivisionByZero, or
             # InvalidOperation for 0/0, under the default context traps)
